@@ -43,6 +43,27 @@ Definition x_find_by_path_default_empty : bool := true.
 Definition x_all_yields_every_value : bool := true.
 
 Definition x_result_meta_none_iff_slot_none : bool := true.
+Definition x_result_sequence_id_before_early_return : bool := true.
 
 Definition x_task_defs_dict_keyed_by_definition : bool := true.
 Definition x_task_line_loop_over_search_defs : bool := true.
+
+Definition x_fs_add_restricts (allow : bool) : bool := (negb allow).
+Definition x_fs_files_are_entry_paths : bool := true.
+Definition x_fs_resolve_source_delegates : bool := true.
+
+Definition x_resolve_from_id_simple_then_sequence : bool := true.
+Definition x_resolve_from_tag_maps_tag_table : bool := true.
+Definition x_source_id_unknown_is_none : bool := true.
+Definition x_catalog_iterates_entries : bool := true.
+
+Definition x_collection_init_resets : bool := true.
+Definition x_reset_reinitialises_all_state : bool := true.
+Definition x_files_are_keys : bool := true.
+Definition x_data_is_copy_of_by_path : bool := true.
+
+Definition x_searcher_base_is_abstract : bool := true.
+
+Definition x_field_info_list_untyped : bool := true.
+Definition x_ensure_type_casts_iff_typed : bool := true.
+Definition x_index_to_name_is_nth : bool := true.
